@@ -8,8 +8,8 @@ prints one line per fragment, `FRAGMENT <name> ok` or `FRAGMENT <name> unparsed 
 in both cases).  `generate(repo, outdir)` does the same from Python and returns {name: status}.
 
 Fragments
-  FormsArms.v      integer/src/{mul_ops,div_ops,gcd_ops}.rs `mod repr`: the four ownership impls
-                   (TypedRepr / TypedReprRef on either side) of Mul, DivRem, Div, Rem, Gcd, ExtendedGcd:
+  FormsArms.v      integer/src/{add_ops,mul_ops,div_ops,gcd_ops}.rs `mod repr`: the four ownership impls
+                   (TypedRepr / TypedReprRef on either side) of Add, Sub, Mul, DivRem, Div, Rem, Gcd, ExtendedGcd:
                    the Small/Large x Small/Large match arms (which kernel, which operand order, the
                    length test and the clone_from_slice reuse of the shorter-dividend arm) or the
                    forwarding body (`rhs.mul(self)`, `self.as_ref().gcd(rhs.as_ref())`), as Gallina
@@ -60,6 +60,10 @@ def strip_comments(src):
 Z, W = "dword", "words"
 FAMILIES = {
     # family: (file, trait, method, Coq result type, {kernel: [arg types]})
+    "add": ("integer/src/add_ops.rs", "Add", "add", "result trepr",
+            {"add_dword": [Z, Z], "add_large_dword": [W, Z], "add_large": [W, W]}),
+    "sub": ("integer/src/add_ops.rs", "Sub", "sub", "result trepr",
+            {"sub_dword": [Z, Z], "sub_large_dword": [W, Z], "sub_large": [W, W], "sub_large_ref_val": [W, W], "panic_negative_ubig": []}),
     "mul": ("integer/src/mul_ops.rs", "Mul", "mul", "result trepr",
             {"mul_dword": [Z, Z], "mul_large_dword": [W, Z], "mul_large": [W, W]}),
     "div_rem": ("integer/src/div_ops.rs", "DivRem", "div_rem", "result (trepr * trepr)",
@@ -73,7 +77,7 @@ FAMILIES = {
     "gcd_ext": ("integer/src/gcd_ops.rs", "ExtendedGcd", "gcd_ext", "result gx",
                 {"gcd_ext_dword": [Z, Z], "gcd_ext_large_dword": [W, Z], "gcd_ext_large": [W, W]}),
 }
-FAMILY_ORDER = ["mul", "div_rem", "div", "rem", "gcd", "gcd_ext"]
+FAMILY_ORDER = ["add", "sub", "mul", "div_rem", "div", "rem", "gcd", "gcd_ext"]
 COQ_TY = {Z: "Z", W: "list Z"}
 OWNS = ["OVV", "OVR", "ORV", "ORR"]
 
@@ -327,7 +331,7 @@ def render_arms(repo):
     for fam in FAMILY_ORDER:
         _, _, _, rty, kernels = FAMILIES[fam]
         for k, sig in kernels.items():
-            fields.append("  k_%s : %s -> %s" % (k, " -> ".join(COQ_TY[t] for t in sig), rty))
+            fields.append("  k_%s : %s" % (k, " -> ".join([COQ_TY[t] for t in sig] + [rty])))
     out = ["(** GENERATED by tools/translate_c15_r3.py from integer/src/{mul_ops,div_ops,gcd_ops,add_ops,bits}.rs - do not edit. *)",
            ARMS_PRELUDE % ";\n".join(fields)]
     for fam in FAMILY_ORDER:
